@@ -192,6 +192,48 @@ func fresh(uri string, text *string, m *Msg) (open reply, ans reply) {
 	return open, ans
 }
 
+// freshDiags is what a fresh server publishes for (uri, text), as a canonical multiset.
+func freshDiags(uri, text string) (string, bool) {
+	open, _ := fresh(uri, &text, nil)
+	if open.crashed {
+		return "", false
+	}
+	for _, p := range publishedDiagnostics(open.notifs) {
+		if p.uri == uri {
+			return p.diags, true
+		}
+	}
+	return "[]", true
+}
+
+// checkPublished applies the diagnostics half of the freshness oracle to whatever one
+// exchange published: every published set must be the fresh analysis of the latest text of
+// the document it names. shown records what the client displays per document.
+func checkPublished(notifs [][]byte, latest map[string]string, shown map[string]string, fd func(uri, text string) (string, bool)) *core.Violation {
+	for _, p := range publishedDiagnostics(notifs) {
+		text, ok := latest[p.uri]
+		if !ok {
+			return viol("freshness", "diagnostics-for-unknown-document", fmt.Sprintf("diagnostics %s published for %s, a document the client never opened", core.Truncate(p.diags, 200), p.uri))
+		}
+		want, ok := fd(p.uri, text)
+		if !ok {
+			continue // the text crashes a fresh server: crash consistency is judged elsewhere
+		}
+		if p.diags != want {
+			return viol("freshness", "stale-or-foreign-diagnostics", fmt.Sprintf("published for %s: %s ; a fresh analysis of its latest text gives %s", p.uri, core.Truncate(p.diags, 400), core.Truncate(want, 400)))
+		}
+		shown[p.uri] = p.diags
+	}
+	return nil
+}
+
+func shownOr(shown map[string]string, uri string) string {
+	if d, ok := shown[uri]; ok {
+		return d
+	}
+	return "[]"
+}
+
 func executeInproc(c Case, keepTrace bool) Result {
 	tr := core.NewTrace(keepTrace)
 	res := Result{Trace: tr, Probes: map[string]int{}}
@@ -205,6 +247,7 @@ func executeInproc(c Case, keepTrace bool) Result {
 	mb := lsp.NewMessageBuffer(pipe)
 	srv := newServer()
 	latest := map[string]string{}
+	shown := map[string]string{}
 	spans := map[string][]gen.Span{}
 	updates := map[string]int{}
 	for i, m := range c.Msgs {
@@ -229,7 +272,7 @@ func executeInproc(c Case, keepTrace bool) Result {
 		rep := srv.handle(req)
 		res.Handled++
 		tr.Add("msg %d %s %s (%d,%d) -> crashed=%v result=%s notifs=%s", i+1, m.Kind, m.URI, m.Line, m.Char, rep.crashed, core.Truncate(answerCanon(m.Kind, rep.result), 300), core.Truncate(notifCanon(rep.notifs), 300))
-		if v := checkReply(m, rep, latest, spans, updates, &res); v != nil {
+		if v := checkReply(m, rep, latest, shown, spans, updates, &res); v != nil {
 			v.Detail = fmt.Sprintf("message %d of %d: %s", i+1, len(c.Msgs), v.Detail)
 			res.Violation = v
 			return res
@@ -246,9 +289,14 @@ func executeInproc(c Case, keepTrace bool) Result {
 					res.Violation = viol("crash-consistency", "crash-on-harmless-text-after-restart", fmt.Sprintf("re-opening %s with a text that was analysed before crashes the restarted server: %s", u, r2.panicV))
 					return res
 				}
-				open, _ := fresh(u, &text, nil)
-				if notifCanon(r2.notifs) != notifCanon(open.notifs) {
-					res.Violation = viol("freshness", "diagnostics-differ-after-restart", fmt.Sprintf("%s: restarted server published %s ; fresh server %s", u, notifCanon(r2.notifs), notifCanon(open.notifs)))
+				delete(shown, u)
+				if v := checkPublished(r2.notifs, latest, shown, freshDiags); v != nil {
+					v.Detail = "after restart: " + v.Detail
+					res.Violation = v
+					return res
+				}
+				if want, ok := freshDiags(u, text); ok && shownOr(shown, u) != want {
+					res.Violation = viol("freshness", "diagnostics-not-refreshed", fmt.Sprintf("after restart and re-open of %s the client shows %s ; a fresh analysis gives %s", u, shownOr(shown, u), want))
 					return res
 				}
 			}
@@ -297,7 +345,7 @@ func rawOrEmpty(r *json.RawMessage) []byte {
 
 // checkReply applies the freshness / isolation / crash-consistency oracles to
 // one message and updates the client model.
-func checkReply(m Msg, rep reply, latest map[string]string, spans map[string][]gen.Span, updates map[string]int, res *Result) *core.Violation {
+func checkReply(m Msg, rep reply, latest map[string]string, shown map[string]string, spans map[string][]gen.Span, updates map[string]int, res *Result) *core.Violation {
 	if rep.outErr != "" {
 		return viol("freshness", "output-not-framed", rep.outErr)
 	}
@@ -328,13 +376,6 @@ func checkReply(m Msg, rep reply, latest map[string]string, spans map[string][]g
 		if open.crashed {
 			return viol("crash-consistency", "fresh-server-crashes-only", fmt.Sprintf("a fresh server crashes on this text (%s) but the long-lived one accepted it", open.panicV))
 		}
-		got, want := notifCanon(rep.notifs), notifCanon(open.notifs)
-		if len(rep.notifs) != 1 {
-			return viol("freshness", "wrong-number-of-notifications", fmt.Sprintf("%s on %s published %d notifications: %s", m.Kind, m.URI, len(rep.notifs), got))
-		}
-		if got != want {
-			return viol("freshness", "stale-or-foreign-diagnostics", fmt.Sprintf("%s on %s published %s ; a fresh analysis of the latest text publishes %s", m.Kind, m.URI, core.Truncate(got, 500), core.Truncate(want, 500)))
-		}
 		latest[m.URI] = text
 		updates[m.URI]++
 		if m.Valid {
@@ -342,8 +383,19 @@ func checkReply(m Msg, rep reply, latest map[string]string, spans map[string][]g
 		} else {
 			delete(spans, m.URI)
 		}
-		if rep.result != nil {
-			return viol("freshness", "notification-answered-with-data", "a notification was answered with a non-null result: "+canonJSON(rep.result))
+		if v := checkPublished(rep.notifs, latest, shown, freshDiags); v != nil {
+			return v
+		}
+		// whatever was or was not published, what the client now shows for this document must
+		// be the fresh analysis of its new text
+		want := "[]"
+		for _, p := range publishedDiagnostics(open.notifs) {
+			if p.uri == m.URI {
+				want = p.diags
+			}
+		}
+		if got := shownOr(shown, m.URI); got != want {
+			return viol("freshness", "diagnostics-not-refreshed", fmt.Sprintf("after %s on %s the client shows %s ; a fresh analysis of the latest text gives %s", m.Kind, m.URI, core.Truncate(got, 400), core.Truncate(want, 400)))
 		}
 		return nil
 	case "hover", "definition", "symbols":
@@ -367,8 +419,8 @@ func checkReply(m Msg, rep reply, latest map[string]string, spans map[string][]g
 		if ans.crashed {
 			return viol("crash-consistency", "fresh-server-crashes-only", "query crashes a fresh server only: "+ans.panicV)
 		}
-		if len(rep.notifs) != 0 {
-			return viol("freshness", "unexpected-notification", fmt.Sprintf("%s published %s", m.Kind, notifCanon(rep.notifs)))
+		if v := checkPublished(rep.notifs, latest, shown, freshDiags); v != nil {
+			return v
 		}
 		got, want := answerCanon(m.Kind, rep.result), answerCanon(m.Kind, ans.result)
 		if textp == nil && rep.result != nil {
@@ -390,24 +442,33 @@ func checkReply(m Msg, rep reply, latest map[string]string, spans map[string][]g
 			return viol("crash-consistency", "history-dependent-crash", "didClose crashed the server: "+rep.panicV)
 		}
 		res.Probes["close_then_reopen_with_version_1"]++
+		// a server may clear the diagnostics of a closed document; anything else it publishes
+		// is judged like any other publication
+		var rest [][]byte
+		for i, pd := range publishedDiagnostics(rep.notifs) {
+			if !(pd.uri == m.URI && pd.diags == "[]") {
+				rest = append(rest, rep.notifs[i])
+			}
+		}
+		if v := checkPublished(rest, latest, shown, freshDiags); v != nil {
+			return v
+		}
+		// the client forgets the document until it is opened again
+		delete(latest, m.URI)
+		delete(shown, m.URI)
+		delete(spans, m.URI)
 		return nil
 	case "init":
 		if rep.crashed {
 			return viol("crash-consistency", "history-dependent-crash", "initialize crashed: "+rep.panicV)
 		}
-		if len(rep.notifs) != 0 {
-			return viol("freshness", "unexpected-notification", "initialize published "+notifCanon(rep.notifs))
-		}
-		return nil
+		return checkPublished(rep.notifs, latest, shown, freshDiags)
 	default:
 		if rep.crashed {
 			return viol("crash-consistency", "history-dependent-crash", "unknown method crashed the server: "+rep.panicV)
 		}
-		if len(rep.notifs) != 0 {
-			return viol("freshness", "unexpected-notification", "unknown method published "+notifCanon(rep.notifs))
-		}
 		res.Probes["unknown_method"]++
-		return nil
+		return checkPublished(rep.notifs, latest, shown, freshDiags)
 	}
 }
 
